@@ -132,8 +132,8 @@ func qp3Oracle(ck *checker, what string, a M, jpvt0 []int, r qp3Run) {
 }
 
 func genQp3(g *vlib.G) {
-	N := vlib.Pick(g, 10, 12)
-	nbs := vlib.Pick(g, []int{2, 3, 4}, []int{2, 3, 4})
+	N := vlib.Pick(g, 12, 14)
+	nbs := vlib.Pick(g, []int{2, 3, 4}, []int{2, 3, 4, 5})
 	nxs := []int{0, 4}
 	fams := generalFams(N, false)
 	for m := 0; m <= N; m++ {
